@@ -29,7 +29,7 @@ RULE = ("runs of the real generator in fresh processes: canonical; after a full 
         "battery equals the battery of a fresh process. evaluations = pages + members + runs; distinct = distinct (page, member).")
 ASSUMPTIONS = ["vf/parse_code.py / vf/parse_latex.py readers", "the HTML (Sphinx) stage is outside the statement and not run",
                "leaf identity between the page and the imported module is by display name (clashes -> inconclusive)"]
-MIN_REACH = {"quick": {"runs_ok": 4, "pages_checked": 700, "equations_code_checked": 500, "equations_latex_checked": 450,
+MIN_REACH = {"quick": {"documented_members_expected": 3000, "runs_ok": 4, "pages_checked": 700, "equations_code_checked": 500, "equations_latex_checked": 450,
                        "symbol_blocks_checked": 1500, "attr_targets_checked": 1000, "runs_compared": 3, "battery_compared": 4},
              "thorough": {"runs_ok": 10, "pages_checked": 700, "equations_code_checked": 500}}
 SHARD_TIMEOUT = {"quick": 1500, "thorough": 3300}
@@ -198,7 +198,31 @@ def analyse_pages(outdir, rec, r):
         with open(src, encoding="utf-8") as f:
             if f"py:currentmodule:: {modname}" not in text:
                 rec.violation(f"page-source-mismatch:{stem}", f"{stem}.rst does not declare its own module {modname}", case)
-        for name, block in split_members(text).items():
+        # own reading of the source: an assignment to a public name directly followed by a string is a documented member
+        blocks = split_members(text)
+        try:
+            with open(src, encoding="utf-8") as f:
+                tree = ast.parse(f.read())
+            body = tree.body
+            for i, stmt in enumerate(body[:-1]):
+                nxt = body[i + 1]
+                if isinstance(stmt, ast.Assign) and isinstance(nxt, ast.Expr) and isinstance(nxt.value, ast.Constant) and isinstance(nxt.value.value, str):
+                    names = [t.id for t in stmt.targets if isinstance(t, ast.Name)]
+                    if not names or names[0].startswith("_"):
+                        continue
+                    rec.hit("documented_members_expected")
+                    doc = nxt.value.value
+                    if names[0] not in blocks:
+                        rec.violation(f"member-missing:{stem}.{names[0]}", f"{stem}.rst lacks the documented member {names[0]}", dict(case, member=names[0]))
+                        continue
+                    blk = blocks[names[0]]
+                    if ":laws:symbol::" in doc and ":code:`" not in blk:
+                        rec.violation(f"formula-missing:{stem}.{names[0]}:code", f"{stem}.{names[0]}: the :laws:symbol:: placeholder was not replaced by a code rendering", dict(case, member=names[0]))
+                    if ":laws:latex::" in doc and ".. math::" not in blk:
+                        rec.violation(f"formula-missing:{stem}.{names[0]}:latex", f"{stem}.{names[0]}: the :laws:latex:: placeholder was not replaced by a LaTeX rendering", dict(case, member=names[0]))
+        except SyntaxError:
+            pass
+        for name, block in blocks.items():
             if not hasattr(mod, name):
                 rec.violation(f"member-unknown:{stem}.{name}", f"{stem}.rst documents {name} which the module does not define", case)
                 continue
